@@ -255,7 +255,7 @@ def split_trace(path):
     return behs
 
 
-def validate_traces(ctx, module, strict_cfg, mon_cfg, trace, name, timeout=900, max_drift=6, env_extra=None):
+def validate_traces(ctx, module, strict_cfg, mon_cfg, trace, name, timeout=900, max_drift=6, env_extra=None, max_viol=40):
     """step 5: TLC validates the recorded trace.  Strict conformance first; behaviours the
     strict spec cannot explain are re-judged by the monitor (the property alone).
     returns dict(validated, drift=[...], violations=[(invariant, behaviour lines, event index)])"""
@@ -264,6 +264,20 @@ def validate_traces(ctx, module, strict_cfg, mon_cfg, trace, name, timeout=900, 
     drift, viol = [], []
     remaining = list(range(total))
     rounds = 0
+
+    def mon_round(todo, rnd):
+        d = ctx.specdir("mon_%s_%d" % (name, rnd))
+        tp = os.path.join(d, "trace.ndjson")
+        with open(tp, "w") as f:
+            for i in todo:
+                f.writelines(behs[i])
+        env = {"VERIF_TRACE": tp, "VERIF_STRICT": "0"}
+        if env_extra: env.update(env_extra)
+        return tlc(ctx, d, module, mon_cfg, workers=1, timeout=timeout, env=env, dfs=True)
+    # the first monitor pass runs alongside the strict passes (two single-worker TLC processes)
+    import concurrent.futures
+    pool = concurrent.futures.ThreadPoolExecutor(1)
+    first_mon = pool.submit(mon_round, list(range(total)), 1) if total else None
     while remaining:
         rounds += 1
         d = ctx.specdir("tr_%s_%d" % (name, rounds))
@@ -304,14 +318,7 @@ def validate_traces(ctx, module, strict_cfg, mon_cfg, trace, name, timeout=900, 
     rounds = 0
     while todo:
         rounds += 1
-        d = ctx.specdir("mon_%s_%d" % (name, rounds))
-        tp = os.path.join(d, "trace.ndjson")
-        with open(tp, "w") as f:
-            for i in todo:
-                f.writelines(behs[i])
-        env = {"VERIF_TRACE": tp, "VERIF_STRICT": "0"}
-        if env_extra: env.update(env_extra)
-        res = tlc(ctx, d, module, mon_cfg, workers=1, timeout=timeout, env=env, dfs=True)
+        res = first_mon.result() if rounds == 1 else mon_round(todo, rounds)
         if res.ok and not res.inv_violated:
             break
         if not res.inv_violated:
@@ -329,7 +336,7 @@ def validate_traces(ctx, module, strict_cfg, mon_cfg, trace, name, timeout=900, 
             raise Infra("cannot map monitor position %d" % pos)
         viol.append({"invariant": res.inv_violated[0], "behaviour": bad, "event": pos - acc, "lines": behs[bad]})
         todo.remove(bad)
-        if len(viol) >= 40:
+        if len(viol) >= max_viol:
             break
     vb = {v["behaviour"] for v in viol}
     pure_drift = [x for x in drift if x["behaviour"] not in vb]
